@@ -12,9 +12,10 @@ Executable specification for C06, written from the documents, not from the code:
                  else MissingWidth; times 1/1000, or times FontMatrix[0] for Type3.
 
 Shares with the model only the data types (`FontDict`, `DiffTok`, `TuEntry`, tables) and the functions
-that are pure parsing of the font dictionary's byte strings (`tuDefs`, `utf16beIgnore`, `placeholder`).
+that are pure parsing of the font dictionary's byte strings (`tuDefs`, `utf16beIgnore`, and
+`resolveFontFile` = tokenising the clear-text header of an embedded Type 1 program into its `put` pairs).
 -/
-import PdfVerif.Model.SimpleFont
+import PdfVerif.Model.Type1Header
 
 namespace PdfVerif.SimpleFont.Spec
 open PdfVerif PdfVerif.SimpleFont
@@ -87,6 +88,22 @@ def aglSpec (gl : GlyphList) (n : Name) : Text :=
 def aglText (gl : GlyphList) : Option Name → Option Text
   | none => none
   | some n => let t := aglSpec gl n; if t.isEmpty then none else some t
+
+/-! ### The grammar of the property: well-formed glyph names -/
+
+/-- A component of the grammar: a list name, `uni` + one or more groups of four uppercase hex digits
+(no surrogate), or `u` + four to six uppercase hex digits denoting a scalar value. -/
+def wellFormedComp (gl : GlyphList) (c : Name) : Bool :=
+  (glLookup gl c).isSome ||
+  (match uniForm c with
+   | some t => !t.isEmpty
+   | none => false) ||
+  (uForm c).isSome
+
+/-- A glyph name of the grammar: components of the grammar joined by underscores, optionally followed by
+a suffix that starts with a period. -/
+def wellFormedName (gl : GlyphList) (n : Name) : Bool :=
+  (components (dropSuffix n)).all (wellFormedComp gl)
 
 /-! ### Names outside the judged domain (see docs/C06.md) -/
 
@@ -201,11 +218,15 @@ def specUnicode (T : Tables) (fd : FontDict) (code : Int) : Option Text :=
     | none => encodingText T fd code
   | none => encodingText T fd code
 
+/-- The placeholder of the property: the characters `(cid:`, the code in decimal, `)`. -/
+def specPlaceholder (code : Int) : Text :=
+  [40, 99, 105, 100, 58] ++ (if code < 0 then [45] else []) ++ decDigits code.natAbs ++ [41]
+
 /-- The text reported for a code. -/
 def specText (T : Tables) (fd : FontDict) (code : Int) : Text :=
   match specUnicode T fd code with
   | some t => t
-  | none => placeholder code
+  | none => specPlaceholder code
 
 /-- `Widths[code - FirstChar]` when that index exists. -/
 def widthsEntry (fd : FontDict) (code : Int) : Option Rat :=
@@ -268,5 +289,19 @@ def judgedCode (T : Tables) (fd : FontDict) (code : Int) : Bool :=
       | some _ => true
       | none => judgedEncName T fd code
   | none => judgedEncName T fd code
+
+/-! ### Font dictionaries with the raw FontFile stream -/
+
+/-- The property on a font dictionary whose embedded Type 1 program is given as bytes: `none` when reading
+the header fails (such programs are outside the property's domain). -/
+def specRaw (T : Tables) (raw : RawFontDict) (code : Int) : Option (Text × Rat) :=
+  match resolveFontFile T.fm raw with
+  | .ok fd => some (specText T fd code, specWidth T fd code)
+  | .error _ => none
+
+def judgedRaw (T : Tables) (raw : RawFontDict) (code : Int) : Bool :=
+  match resolveFontFile T.fm raw with
+  | .ok fd => judgedCode T fd code
+  | .error _ => false
 
 end PdfVerif.SimpleFont.Spec
